@@ -141,4 +141,30 @@ def oodsAlpha (H : Hashes) (t : Transcript) (n : Nat) (r0 r1 composition : Felt)
     (oodsValues : List Felt) : Felt :=
   (randomFelt H (stateAfterOodsValues H t n r0 r1 composition oodsValues)).1
 
+/-! ### C13: the fields of the public input bound by the transcript seed -/
+
+/-- the part of a continuous-page header that `get_hash` hashes (`prod` is not hashed) -/
+def headerKey (h : ContinuousPageHeader) : Felt × Felt × Felt := (h.startAddress, h.size, h.hash)
+
+/-- two public inputs (and, under Stone 6, friendly-layer counts) agree on everything the seed
+    binds: step count, range-check bounds, layout code, dynamic parameters, segments, padding cell,
+    the whole main page (hence its length), the number of continuous pages and each header's
+    address, size and hash, and — if `stone6` — the friendly-layer count. -/
+def SeedFieldsEq (stone6 : Bool) (nfA nfB : Felt) (a b : PublicInput) : Prop :=
+  a.logNSteps = b.logNSteps ∧ a.rangeCheckMin = b.rangeCheckMin ∧
+  a.rangeCheckMax = b.rangeCheckMax ∧ a.layout = b.layout ∧
+  a.dynamicParams = b.dynamicParams ∧ a.segments = b.segments ∧
+  a.paddingAddr = b.paddingAddr ∧ a.paddingValue = b.paddingValue ∧
+  a.mainPage = b.mainPage ∧
+  a.continuousPageHeaders.map headerKey = b.continuousPageHeaders.map headerKey ∧
+  (stone6 = true → nfA = nfB)
+
+/-- "same layout" shape proviso of C13: same segment count, same presence and number of dynamic
+    parameters (each a `usize`), main-page lengths that fit a `usize` -/
+def SeedShape (a b : PublicInput) : Prop :=
+  a.segments.length = b.segments.length ∧
+  a.dynamicParams.map List.length = b.dynamicParams.map List.length ∧
+  (∀ d ∈ a.dynamicParams.getD [], d < 2 ^ 64) ∧ (∀ d ∈ b.dynamicParams.getD [], d < 2 ^ 64) ∧
+  a.mainPage.length < 2 ^ 64 ∧ b.mainPage.length < 2 ^ 64
+
 end Swiftness.Spec
